@@ -15,15 +15,16 @@ import (
 // acc accumulates what one case observed; flushed into the report once per case (keeps the
 // report's mutex out of the inner loops).
 type acc struct {
-	c        *vkit.Case
-	r        *vkit.Report
-	evals    int
-	counts   map[[2]string]int
-	dist     []string
-	requests int
-	endRe    int
-	integ    int // argument-integrity probes
-	failed   bool
+	c         *vkit.Case
+	r         *vkit.Report
+	evals     int
+	counts    map[[2]string]int
+	dist      []string
+	requests  int
+	endRe     int
+	integ     int // argument-integrity probes
+	posChecks int // source-position checks (position.go)
+	failed    bool
 	// sampleAt = k > 0: the k-th non-trivial triple of this case is written out as a sample (set by
 	// main for a few designated cases, so that the samples do not depend on scheduling).
 	sampleAt int
@@ -89,6 +90,7 @@ func (a *acc) flush() {
 	}
 	a.r.Count("totals", "output requests checked (value, pulls)", a.requests)
 	a.r.Count("totals", "Next calls after the end checked", a.endRe)
+	a.r.Count("totals", "source-position checks (rest of the library's own source read after j requests)", a.posChecks)
 	a.r.Count("totals", "argument-integrity probes (caller's array incl. sentinels unchanged)", a.integ)
 	for _, d := range a.dist {
 		a.r.Distinct(d)
@@ -296,6 +298,7 @@ func runSingle[U any](a *acc, s *single[U]) {
 		}})
 	}
 	runFlavours(a, s, fl)
+	sourcePosition(a, s)
 }
 
 func runFlavours[U any](a *acc, s *single[U], fl []flavourMk[U]) {
